@@ -10,6 +10,8 @@ mod workflow;
 mod tests;
 
 pub use act::{Act, Catch, Retry, Timeout, TimeoutLimit};
+#[cfg(feature = "verif")]
+pub use act::TimeoutUnit;
 pub use branch::Branch;
 pub use info::{EventInfo, MessageInfo, ModelInfo, PackageInfo, ProcInfo, TaskInfo};
 pub use output::{Output, OutputType, Outputs};
